@@ -118,7 +118,10 @@ def check_pure(ctx: Ctx, case):
         from harness import subrun
         vi0 = results[0][0]
         payload = _json.dumps({"cfg": cfg, "n": n, "variant": {"seeds": variants[vi0]["seeds"]}})
-        pr = subprocess.run([_sys.executable, "-m", "harness.subrun"], input=payload, capture_output=True, text=True, timeout=600)
+        import os as _os
+        env = dict(_os.environ, PYTHONHASHSEED="7")   # nor on the interpreter's hash seed / object addresses
+        pr = subprocess.run([_sys.executable, "-m", "harness.subrun"], input=payload, capture_output=True, text=True, timeout=600,
+                            env=env)
         line = [l for l in pr.stdout.splitlines() if l.startswith("DIGEST ")]
         if pr.returncode == 0 and line:
             class _C:  # digest() reads attributes
